@@ -107,7 +107,7 @@ def main():
                      "kind_free_text": "Go monitors (reference models, panic/alloc/CPU monitors, porcupine, race detector) built per check against /repo's working tree"}],
         "checks": checks,
         "not_applicable": na,
-        "notes": "All checks are runtime monitors; verdicts are 'held on the executions observed'. Known findings: /verif/known_findings.jsonl.",
+        "notes": "All checks are runtime monitors; verdicts are 'held on the executions observed'. Known findings: /verif/known_findings.jsonl and /verif/known_findings.d/. After its native run ./check runs the same monitor built for GOARCH=386 (arithmetic, encodings, tables) and built with the race detector (the concurrent sections of C01 C02 C03 C08 C09 C10 C12 C13 C15 C16 C20; C11 C17 C18 run under the detector throughout); a side run's violations are reported like any other (replay under /verif/replay/<ID>.side386/ or <ID>.siderace/). VERIF_SEED selects the seeded part of a workload (default 1).",
     }
     json.dump(m, open("/verif/MANIFEST.json", "w"), indent=1)
     print("claimed:", [c["property_id"] for c in checks])
